@@ -37,6 +37,7 @@ def check(ctx):
     ctx.rule("R5", "the reported return code is read from the last stage", floor=1)
     ctx.rule("R7", "writers that share the capture pipe through different layers (text dispatcher, raw buffer) never leave text pending", floor=3)
     ctx.rule("R8", "the reader ends of the pipes between stages are closed only once the last stage is over: every call of the closer that releases them is made where the last stage is known to have finished (an alias stage runs on a thread of this process and reads through the very descriptor)", floor=3)
+    ctx.rule("R9", "the thread that reaps a stage with the raw waitpid records the status it obtained - exit status or minus the signal - unconditionally: another watcher's Popen.poll() may already have stored the ECHILD placeholder 0 there", floor=2)
     ctx.rule("R6", "captured stdout is not echoed to the terminal and stderr is not mixed into a stdout capture", floor=3)
 
     rd = ctx.repo.module(RD)
@@ -299,6 +300,33 @@ def check(ctx):
         ctx.ob("R7", f"{PL}:CommandPipeline.tee_stdout", f"`{short(w.ast, 50)}` is followed by a flush of the target before the next line", ok, key="tee|echo-not-flushed", where=loc(w.ast))
 
     _reader_ends(ctx)
+    _reaper_records(ctx)
+
+
+def _reaper_records(ctx):
+    from ..engine import dtable as _dt
+
+    JB = "xonsh/procs/jobs.py"
+    jm = ctx.repo.module(JB)
+    fn = jm.func("proc_untraced_waitpid")
+    st = f"{JB}:proc_untraced_waitpid"
+    procp = param_name(fn, 0, skip_self=False)
+    n = 0
+    for p_ in _dt.paths(fn, stores=True, loops="skip"):
+        if not _dt.feasible(p_) or p_.outcome == "raise":
+            continue
+        conds = {(unparse(e), pol) for e, pol in p_.conds}
+        reaped = any("wpid" in t and "== 0" in t and not pol for t, pol in conds) or any(t.endswith("== 0") and not pol and "pid" in t for t, pol in conds)
+        stopped = any("WIFSTOPPED" in t and pol for t, pol in conds)
+        if not reaped or stopped:
+            continue
+        n += 1
+        stored = [e for e in p_.effects if isinstance(e, ast.Assign) and any(isinstance(t, ast.Attribute) and t.attr == "returncode" and unparse(t.value) == procp for t in e.targets)]
+        from_status = any(any(isinstance(c, ast.Call) and (call_name(c) or "").split(".")[-1] in ("WTERMSIG", "WEXITSTATUS", "waitstatus_to_exitcode") for c in ast.walk(e.value)) for e in stored)
+        kind = "signalled" if any("WIFSIGNALED" in t and pol for t, pol in conds) else "exited"
+        ctx.ob("R9", st, f"a path on which the child was reaped ({kind}) stores the status in {procp}.returncode", from_status, key=f"waitpid|status-not-recorded|{kind}", where=loc(fn), detail=None if from_status else "path: " + "; ".join(sorted(("" if pol else "not ") + t for t, pol in conds))[:300])
+    if n < 2:
+        raise AnalysisError(f"{st}: only {n} reaping paths enumerated")
 
 
 TERMINAL_CLEANUP = {
@@ -368,5 +396,5 @@ META = {
     "dispatcher flushes every write unconditionally and every raw echo is followed by a flush (two layers share "
     "the capture pipe while an alias runs).",
     "note": "Decides the listed structural clauses, not the behaviour; marginal reach by design (DESIGN section 4).",
-    "more": 'Also decided: the reader ends of the inter-stage pipes are closed only where the last stage is known to be over (an alias stage reads through the descriptor in this process).',
+    "more": 'Also decided: the reader ends of the inter-stage pipes are closed only where the last stage is known to be over (an alias stage reads through the descriptor in this process). The raw-waitpid helper stores the status it reaped on every reaping path.',
 }
